@@ -155,7 +155,7 @@ func (r *vfC13Run) installAvoidance() {
 				r.rec.Excluded(sig)
 				return true
 			}
-			if sig, _ := vfC13ShapeRoleClip(r.w.M, held, s); sig != "" && kit.Known("C13", sig) {
+			if sig, _ := vfC13ShapeRoleClip(r.w.M, held, s, r.firstAccessOp(r.w.M)); sig != "" && kit.Known("C13", sig) {
 				r.rec.Excluded(sig)
 				return true
 			}
@@ -235,6 +235,8 @@ func vfC13ParseScript(script string) (ops []vfC13Op, defaultCollection bool, err
 			ops = append(ops, o)
 		case "del", "delrole":
 			ops = append(ops, vfC13Op{Kind: f[0], ID: f[1]})
+		case "load":
+			ops = append(ops, vfC13Op{Kind: "load"})
 		case "user", "role":
 			o := vfC13Op{Kind: f[0], ID: f[1]}
 			if g, ok := attr("chans"); ok {
@@ -413,7 +415,7 @@ func vfC13ShapeDeletedRole(post *vfC13Model, held map[string]string, pos uint64)
 // after that position. Past access periods through a current role
 // are clipped to the current assignment stamp, so the period in which R conferred X vanishes and a
 // held document whose entry in X is newer than the position is not revoked.
-func vfC13ShapeRoleClip(post *vfC13Model, held map[string]string, pos uint64) (sig, detail string) {
+func vfC13ShapeRoleClip(post *vfC13Model, held map[string]string, pos, firstAccessOp uint64) (sig, detail string) {
 	roles := post.userRoles(vfC13Client)
 	eff := post.Effective(vfC13Client)
 	for _, id := range vfSortedKeys(held) {
@@ -429,6 +431,16 @@ func vfC13ShapeRoleClip(post *vfC13Model, held map[string]string, pos uint64) (s
 			stamp := roles[rn]
 			if role == nil || !role.Exists {
 				continue // (a deleted role counts: its channel history is clipped to the assignment stamp just the same)
+			}
+			// Not this shape: the current assignment has had one source since it began, and the
+			// assignment before it (if it ended after the position) ended with the first grant change
+			// since the position and was recorded by a load of the user before the role came back -
+			// the earlier period then survives as a role-history entry.
+			if post.MemStart[vfC13Client][rn] == stamp {
+				prev := post.MemPrevEnd[vfC13Client][rn]
+				if prev <= pos || (prev == firstAccessOp && post.LoadedWithin(vfC13Client, prev, stamp)) {
+					continue
+				}
 			}
 			cur := post.roleChans(rn)
 			for _, x := range vfSortedKeys(role.Had) {
@@ -460,7 +472,7 @@ func vfC13ShapeRoleClip(post *vfC13Model, held map[string]string, pos uint64) (s
 // before the last one. A grant that is lost and present again when the principal is next loaded
 // leaves no history entry (only its stamp moves), so the earlier period is unknown to the revocation
 // feed and the document is not revoked.
-func vfC13ShapeRegainNoHistory(post *vfC13Model, held map[string]string, pos uint64) (sig, detail string) {
+func vfC13ShapeRegainNoHistory(post *vfC13Model, held map[string]string, pos, firstAccessOp uint64) (sig, detail string) {
 	eff := post.Effective(vfC13Client)
 	for _, id := range vfSortedKeys(held) {
 		if post.Visible(vfC13Client, id) {
@@ -489,7 +501,13 @@ func vfC13ShapeRegainNoHistory(post *vfC13Model, held map[string]string, pos uin
 			if overlaps(periods[len(periods)-1]) {
 				continue
 			}
-			for _, p := range periods[:len(periods)-1] {
+			for i, p := range periods[:len(periods)-1] {
+				// Not this shape: the period ended with the first grant change since the position
+				// (so it is recorded with its true end and an unmoved start) and the user was loaded
+				// before the channel came back (so the history entry exists).
+				if p.End == firstAccessOp && post.LoadedWithin(vfC13Client, p.End, periods[i+1].Start) {
+					continue
+				}
 				if p.End > pos && overlaps(p) {
 					return vfC13SigRegainNoHistory, fmt.Sprintf("%s sat in %s during %v only, %s was lost again later: %v (position %d)", id, x, p, x, periods, pos)
 				}
@@ -576,16 +594,17 @@ func vfC13ShapeRecreatedRole(pre, post *vfC13Model, o vfC13Op, rep *vfC13Replica
 // operation dropped otherwise. With the entry removed from the findings list nothing is avoided and
 // the shape fails as a violation at the next pull. Returns true when the operation must not run.
 func (r *vfC13Run) avoidKnownShapes(o vfC13Op, post *vfC13Model) (drop bool) {
+	first := r.firstAccessOp(post)
 	for attempt := 0; ; attempt++ {
 		sig, _ := vfC13ShapeBackfillHides(post, r.w.R)
 		if sig == "" || !kit.Known("C13", sig) {
 			sig, _ = vfC13ShapeDeletedRole(post, r.w.R.Held, r.w.R.LowPos())
 		}
 		if sig == "" || !kit.Known("C13", sig) {
-			sig, _ = vfC13ShapeRoleClip(post, r.w.R.Held, r.w.R.LowPos())
+			sig, _ = vfC13ShapeRoleClip(post, r.w.R.Held, r.w.R.LowPos(), first)
 		}
 		if sig == "" || !kit.Known("C13", sig) {
-			sig, _ = vfC13ShapeRegainNoHistory(post, r.w.R.Held, r.w.R.LowPos())
+			sig, _ = vfC13ShapeRegainNoHistory(post, r.w.R.Held, r.w.R.LowPos(), first)
 		}
 		if sig == "" || !kit.Known("C13", sig) {
 			sig, _ = vfC13ShapeRecreatedHistory(r.w.M, post, o, r.w.R.Held, r.w.R.LowPos(), r.defColl)
@@ -593,7 +612,8 @@ func (r *vfC13Run) avoidKnownShapes(o vfC13Op, post *vfC13Model) (drop bool) {
 		if sig == "" || !kit.Known("C13", sig) {
 			break
 		}
-		if attempt > 0 {
+		if attempt > 0 || r.pullDeferred() != "" {
+			// still there after a pull, or a pull is not possible right now
 			r.rec.Excluded(sig + " (operation dropped)")
 			return true
 		}
@@ -608,6 +628,31 @@ func (r *vfC13Run) avoidKnownShapes(o vfC13Op, post *vfC13Model) (drop bool) {
 		return true
 	}
 	return false
+}
+
+// firstAccessOp: the sequence of the first operation since the last completed pull that changed the
+// client user's grant sources (the operation being looked at, if none did so far).
+func (r *vfC13Run) firstAccessOp(post *vfC13Model) uint64 {
+	if len(r.w.AccessOps) > 0 {
+		return r.w.AccessOps[0]
+	}
+	return post.Seq
+}
+
+// pullDeferred (family Witnessed only): the three back-fill shapes are transient - they hold while
+// the regained channel is accessible and dissolve when it is lost again or the document becomes
+// visible - so that family steps around them by not pulling while one of them is present (the
+// history goes on, which is what lets it reach revocations that depend on an earlier access period).
+// In family Open a pull is placed before the operation that would complete the shape instead.
+// Returns the signature that currently forbids a pull, "" if none.
+func (r *vfC13Run) pullDeferred() string {
+	if !r.witnessed {
+		return ""
+	}
+	if sig, _ := vfC13ShapeBackfillHides(r.w.M, r.w.R); sig != "" && kit.Known("C13", sig) {
+		return sig
+	}
+	return ""
 }
 
 // ---------------------------------------------------------------------------------------------
